@@ -16,6 +16,7 @@ TAG2FINDING = {
     "list-created-in-loop": "list-created-in-loop-leaks",
     "loop-born-carried": "loop-born-variable-reset",
     "len-after-nested-mutation": "len-folded-stale",
+    "multi-effect-operands": "operand-evaluation-order",
     "membership": None,          # rejected by the transpiler: allowed
 }
 
